@@ -6,21 +6,29 @@ parse -> Format -> print -> parse -> Format -> print on the real code: the forma
 into the same structural projection, must be identical for all layouts of one derivation, and formatting the
 formatted text must change nothing.  A formatter panic violates the first clause."""
 import random
+import re
 
 from . import core, syntax, progs, c13
 
 
+LABEL_LINE = re.compile(r"(?m)^([A-Za-z_][A-Za-z0-9_]*);[ \t]*[^ \t\r\n]")
+
+
 def trigger(text, used):
+    """the most specific explanation among the recorded findings comes first"""
     if any(u in ("closetag+html", "echo+closetag+html") for u in used):
         return "inline-html"
-    if any(u.startswith(("heredoc/", "nowdoc/")) for u in used):
-        return "heredoc"
     if text and ",)" in text:
         return "comma-before-closing-parenthesis"
     if text and ("+++" in text or "---" in text):
         return "sign-fused-with-increment"
     if any(u.startswith(("StmtIf/alt", "StmtElseIf/alt", "StmtElse/alt")) for u in used):
         return "alternative-syntax-if"
+    if text and any(u.startswith(("heredoc/", "nowdoc/")) for u in used):
+        # the closing label of a heredoc followed, on its own line, by more than ';' (no terminator before PHP 7.3)
+        for m in LABEL_LINE.finditer(text):
+            if re.search(r"<<<[ \t]*['\"]?" + re.escape(m.group(1)) + r"['\"]?\r?\n", text):
+                return "heredoc-label-line-continues"
     return "other"
 
 
@@ -41,6 +49,8 @@ def run(tier):
         behs, ex = progs.drop_skipped(behs, ex)
         tasks = []
         for i, e in enumerate(ex):
+            if {"heredoc/empty", "nowdoc/empty"} & set(e["used"]):
+                continue            # D6 (scanner, known finding of C01/C02/C04) would hide what the formatter does
             for v in e["variants"]:
                 tasks.append({"op": "format_check", "src": v["src"], "ver": progs.VERS[family][0], "_i": i, "_u": e["used"], "_l": v["layout"]})
         res = wp.run([{k: v for k, v in t.items() if not k.startswith("_")} for t in tasks])
